@@ -75,6 +75,21 @@ func (ex *Exec) staticCall(fr *Frame, ins ssa.Instruction, fn *ssa.Function, arg
 		return
 	}
 	c := ex.prog.ContractOf(fn)
+	// specialisation by the dynamic type of an interface argument:  name@<dyn type>
+	for i, a := range args {
+		if iv, ok := a.(IfaceV); ok && iv.Dyn != nil {
+			key := fkey(funcPkgPath(fn), relName(fn)+"@"+typeKey(iv.DynT))
+			if sc := ex.prog.Contracts[key]; sc != nil {
+				nargs := append([]Val(nil), args...)
+				nargs[i] = iv.Dyn
+				v := ex.applyContractSig(fr, ins, sc, fn, fn.Signature, nargs, free, relName(fn)+"@"+typeKey(iv.DynT))
+				if !isDefer {
+					ex.bindResult(fr, ins, v)
+				}
+				return
+			}
+		}
+	}
 	if c != nil && !c.Inline {
 		v := ex.applyContract(fr, ins, c, fn, args, free)
 		if !isDefer {
@@ -180,7 +195,23 @@ func (ex *Exec) unknownFuncValueCall(fr *Frame, ins ssa.Instruction, cc *ssa.Cal
 			return ex.applyContractSig(fr, ins, c, nil, sig, args, nil, "functype "+named.Obj().Name())
 		}
 	}
-	return ex.havocCall(fr, ins, nil, sig, args, nil)
+	ex.note("call through a function value without contract (" + cc.Value.Name() + " of type " + types.TypeString(cc.Value.Type(), nil) + " in " + relName(fr.fn) + "): assumed to modify only memory directly referenced by its arguments")
+	if ex.dry != nil {
+		ex.dry.escaped = true
+	}
+	for _, a := range args {
+		ex.havocReachable(a)
+	}
+	if cl, ok := fv.(ClosureV); ok {
+		for _, b := range cl.Bindings {
+			ex.havocReachable(b)
+		}
+	}
+	rt := resultType(sig)
+	if rt == nil {
+		return nil
+	}
+	return ex.freshVal(rt, "ret|funcvalue")
 }
 
 func (ex *Exec) invoke(fr *Frame, ins ssa.Instruction, cc *ssa.CallCommon, recv Val, args []Val) Val {
@@ -304,6 +335,11 @@ func (ex *Exec) applyContractSig(fr *Frame, ins ssa.Instruction, c *Contract, fn
 	}
 	if c.Trusted != "" {
 		ex.note("trusted contract: " + shortName(c.Pkg) + "." + cname + " (" + c.Trusted + ")")
+	}
+	if al, ok := c.Options["allocates"]; ok {
+		if e, err := ParseExpr(al); err == nil {
+			ex.allocObligation(ins, ex.evalInt(e, env))
+		}
 	}
 	old := ex.st.snapshot()
 	for _, m := range c.Modifies {
